@@ -164,6 +164,9 @@ def as_dtype(d, default=None):
         if d._dtype is None:
             raise Unsupported(f'abstract dtype {d!r}')
         return d._dtype
+    nm = getattr(d, '__name__', None)
+    if nm in ('b_bool', 'b_int', 'b_float', 'b_str'):       # the interpreter's builtin type objects
+        d = {'b_bool': bool, 'b_int': int, 'b_float': float, 'b_str': str}[nm]
     if d is bool or d == 'bool':
         return BOOL
     if d is int or d in ('int', 'int64', 'i8'):
@@ -190,6 +193,13 @@ class NDArray:
         self.base = base          # (parent NDArray, child_idx_of_parent_idx) for writable views
         self.writeable = True
         self.fill_value = None
+
+    def frozen(self):
+        """Value snapshot: derived arrays read this, so later stores into the source are not seen through them."""
+        f = NDArray.__new__(NDArray)
+        f.__dict__.update(self.__dict__)
+        f.base = None
+        return f
 
     # -- basic protocol ------------------------------------------------------------
     @property
@@ -341,7 +351,7 @@ class NDArray:
                     raise Unsupported(f'array index of type {type(i).__name__}')
                 plan.append(('int', self._norm_scalar_index(i, n, check)))
             ax += 1
-        src = self
+        src = self.frozen()
 
         def remap(oidx):
             out = []
@@ -382,7 +392,7 @@ class NDArray:
         total = prod(lead)
         sel = selection_of_mask(mask)
         rest = self.shape[mask.ndim:]
-        src = self
+        src = self.frozen()
 
         def fn(o):
             n = sel.sel(o[0])
@@ -410,7 +420,7 @@ class NDArray:
         if not same(mask.shape[0], self.shape[p]) and not known_true(s_eq(mask.shape[0], self.shape[p])):
             raise_(IndexError, 'boolean index did not match indexed array')
         sel = selection_of_mask(mask)
-        src = self
+        src = self.frozen()
         shape = self.shape[:p] + (sel.count,) + self.shape[p + 1:]
 
         def remap(o):
@@ -428,7 +438,7 @@ class NDArray:
         idx = list(idx) + [slice(None)] * (self.ndim - len(idx))
         if len(arrs) == 1:
             p, ia = arrs[0]
-            src = self
+            src = self.frozen()
             plan = []
             for k, i in enumerate(idx):
                 if k == p:
@@ -475,7 +485,7 @@ class NDArray:
         rest = idx[len(ks):]
         if not all(isinstance(r, slice) and r == slice(None) for r in rest):
             raise Unsupported('fancy + partial slices')
-        src = self
+        src = self.frozen()
         nia = len(shp)
 
         def remap2(o):
@@ -610,7 +620,7 @@ class NDArray:
     def astype(self, dtype, **kw):
         d = as_dtype(dtype)
         used('NP-ASTYPE')
-        src = self
+        src = self.frozen()
         if d.kind == self.dtype.kind or self.dtype.kind == 'V':
             return NDArray(self.shape, self.fn, d, self.mask_fn)
         if d.kind == 'f' and self.dtype.kind in 'ib':
@@ -916,6 +926,10 @@ def elementwise2(a, b, op, dtype=None):
         # comparison with None (object arrays)
         pass
     an, bn = isinstance(a, NDArray), isinstance(b, NDArray)
+    if an:
+        a = a.frozen()
+    if bn:
+        b = b.frozen()
     if an and bn:
         shp = broadcast_shapes(a.shape, b.shape)
         nd = len(shp)
@@ -947,6 +961,7 @@ def _result_dtype(a, b):
 
 def elementwise1(a, op, dtype=None):
     used('NP-ELEMENTWISE')
+    a = a.frozen()
     return NDArray(a.shape, lambda i: op(a.fn(i)), dtype or a.dtype, a.mask_fn)
 
 
@@ -1020,6 +1035,7 @@ def transpose(a, axes=None):
     if isinstance(a, Maybe):
         a = core.resolve_maybe(a)
     a = asarray(a)
+    a = a.frozen()
     nd = a.ndim
     if axes is None:
         axes = tuple(reversed(range(nd)))
@@ -1039,7 +1055,7 @@ def transpose(a, axes=None):
 
 def stack(arrays, axis=0, dtype=None):
     used('NP-STACK')
-    arrs = [asarray(x) for x in arrays]
+    arrs = [asarray(x).frozen() for x in arrays]
     if not arrs:
         raise_(ValueError, 'need at least one array to stack')
     shp = arrs[0].shape
@@ -1068,7 +1084,7 @@ def stack(arrays, axis=0, dtype=None):
 
 def concatenate(arrays, axis=0):
     used('NP-CONCATENATE')
-    arrs = [asarray(x) for x in arrays]
+    arrs = [asarray(x).frozen() for x in arrays]
     nd = arrs[0].ndim
     ax = axis + nd if axis < 0 else axis
     offs = [0]
@@ -1094,6 +1110,7 @@ def concatenate(arrays, axis=0):
 def expand_dims(a, axis):
     used('NP-EXPAND-DIMS')
     a = asarray(a)
+    a = a.frozen()
     nd = a.ndim + 1
     ax = axis + nd if axis < 0 else axis
     shape = a.shape[:ax] + (1,) + a.shape[ax:]
@@ -1104,6 +1121,7 @@ def expand_dims(a, axis):
 def broadcast_to(a, shape):
     used('NP-BROADCAST-TO')
     a = asarray(a)
+    a = a.frozen()
     shape = tuple(shape)
     if len(shape) < a.ndim:
         raise_(ValueError, 'input operand has more dimensions than allowed by the axis remapping')
@@ -1215,7 +1233,7 @@ def isfinite(x):
     from .floats import f_isfinite
     used('NP-ISFINITE')
     if isinstance(x, NDArray) or hasattr(x, '_asarray'):
-        x = asarray(x)
+        x = asarray(x).frozen()
         return NDArray(x.shape, lambda i: f_isfinite(x.fn(i)), BOOL)
     return f_isfinite(x)
 
@@ -1224,7 +1242,7 @@ def isnan(x):
     from .floats import f_isnan
     used('NP-ISNAN')
     if isinstance(x, NDArray) or hasattr(x, '_asarray'):
-        x = asarray(x)
+        x = asarray(x).frozen()
         return NDArray(x.shape, lambda i: f_isnan(x.fn(i)), BOOL)
     return f_isnan(x)
 
@@ -1234,6 +1252,7 @@ def reduce_bool(a, axis, which):
     instantiation on demand (witness facts)."""
     used('NP-ANY-ALL')
     a = asarray(a)
+    a = a.frozen()
     if axis is None:
         axes = tuple(range(a.ndim))
     elif isinstance(axis, int):
@@ -1335,7 +1354,8 @@ def selection_of_mask(mask: NDArray) -> Selection:
         return cached
     shp = mask.shape
     total = prod(shp)
-    sel = Selection(total, lambda n: truthy(mask.fn(unravel(n, shp))))
+    mfrozen = mask.frozen()
+    sel = Selection(total, lambda n: truthy(mfrozen.fn(unravel(n, shp))))
     mask._selection = sel
     return sel
 
@@ -1454,12 +1474,41 @@ def np_unique(a):
         r.selection = sel
         r.sorted_unique = True
         return r
+    vr = getattr(a, 'value_range', None)
+    if vr is not None and a.ndim == 1 and vr[1] - vr[0] <= 16:
+        return UniqueSmall(a, vr[0], vr[1])
     raise Unsupported('unique of a general symbolic array')
+
+
+class UniqueSmall:
+    """numpy.unique of an integer array whose values lie in a small known range: the ascending list of the
+    candidates that occur.  Iteration forks on the occurrence of each candidate (an existential with witness)."""
+    _pyvc_model_class = True
+
+    def __init__(self, a, lo, hi):
+        self.a, self.lo, self.hi = a.frozen(), lo, hi
+        self.present = {}
+
+    def _present(self, v):
+        if v not in self.present:
+            a = self.a
+            eq = NDArray(a.shape, lambda i: s_eq(a.fn(i), v), BOOL)
+            self.present[v] = reduce_bool(eq, None, 'any')
+        return self.present[v]
+
+    def _iterate(self):
+        for v in range(self.lo, self.hi + 1):
+            if truth(self._present(v)):
+                yield v
+
+    def _len(self):
+        raise Unsupported('len of unique values')
 
 
 def np_sum(a, axis=None, **kw):
     used('NP-SUM')
     a = asarray(a)
+    a = a.frozen()
     if axis is None:
         axes = tuple(range(a.ndim))
     else:
@@ -1482,7 +1531,10 @@ def np_sum(a, axis=None, **kw):
         return t
     if not out_shape:
         return fn(())
-    return NDArray(out_shape, fn, INT64 if a.dtype.kind in 'bi' else a.dtype)
+    r = NDArray(out_shape, fn, INT64 if a.dtype.kind in 'bi' else a.dtype)
+    if a.dtype.kind == 'b':
+        r.value_range = (0, prod([a.shape[k] for k in axes]))
+    return r
 
 
 def pad(a, pad_width, mode='constant', constant_values=0, **kw):
@@ -1490,6 +1542,7 @@ def pad(a, pad_width, mode='constant', constant_values=0, **kw):
     if mode != 'constant':
         raise Unsupported(f'pad mode {mode!r}')
     a = asarray(a)
+    a = a.frozen()
     nd = a.ndim
     if isinstance(pad_width, (int, SInt)):
         pw = [(pad_width, pad_width)] * nd
@@ -1637,7 +1690,7 @@ NOMASK = _NoMask()
 
 def ma_masked_array(data, mask=NOMASK, dtype=None, **kw):
     used('NP-MA-MASKED-ARRAY')
-    a = asarray(data)
+    a = asarray(data).frozen()
     if mask is NOMASK or mask is False:
         return NDArray(a.shape, a.fn, a.dtype, lambda i: False)
     if mask is True:
@@ -1657,11 +1710,13 @@ def ma_getmask(a):
 def ma_getmaskarray(a):
     used('NP-MA-GETMASK')
     a = asarray(a)
+    a = a.frozen()
     return NDArray(a.shape, a.mask_fn if a.mask_fn is not None else (lambda i: False), BOOL)
 
 
 def ma_getdata(a):
     a = asarray(a)
+    a = a.frozen()
     return NDArray(a.shape, a.fn, a.dtype)
 
 
@@ -1685,6 +1740,9 @@ def ma_masked_invalid(x):
 def ma_filled(a, fill_value=None):
     used('NP-MA-FILLED')
     a = asarray(a)
+    a = a.frozen()
+    a = a.frozen()
+    a = a.frozen()
     if a.mask_fn is None:
         return a
     if fill_value is None:
